@@ -3,7 +3,7 @@
 
 cd /verif
 mkdir -p .cache/gen
-python3 tools/gen.py .cache/exp_std.rs .cache/gen/psc.rs .cache/gen/psc.meta.json $(ls verus/*.rs.in verus/*.py | sort -t/ -k2) --flag std || exit $?
+python3 tools/gen.py .cache/exp_std.rs .cache/gen/psc.rs .cache/gen/psc.meta.json $(ls verus/*.rs.in verus/*.py | sort -t/ -k2) --flag std ${FAMILY:+--family $FAMILY} || exit $?
 cd .cache/gen
 verus psc.rs --output-json --time-expanded --rlimit 40 "$@" > psc.out.json 2> psc.err.txt; rc=$?
 grep -E "^(error|warning: unused)" -A12 psc.err.txt | head -${LINES_MAX:-120}
